@@ -8,7 +8,7 @@ checks, na = [], []
 for p in props:
     pid = p["id"]
     cj = os.path.join(V, "checks", pid, "check.json")
-    if os.path.exists(cj) and not json.load(open(cj)).get("disabled"):
+    if os.path.exists(cj) and json.load(open(cj)).get("ready") and not json.load(open(cj)).get("disabled"):
         c = json.load(open(cj))
         checks.append({
             "property_id": pid,
